@@ -148,17 +148,20 @@ class IfsSwitch(Harness):
     doc = 'IFS: value paired with the first true condition else #N/A; SWITCH: result paired with the first case equal ' \
           'to the target, else the default, else #N/A; an error condition / target yields that error'
     functions = ('logic.IFS', 'logic.SWITCH')
-    bounds = 'IFS: 1..4 pairs, conditions logical/int/blank (or one error), values symbolic ints; SWITCH: target and ' \
+    bounds = 'IFS: 1..6 pairs, conditions logical/int/blank (or one error), values symbolic ints; SWITCH: target and ' \
              'cases symbolic ints or 1-char texts, 1..4 cases (repeated cases arise symbolically), with and without default'
 
     def cases(self, tier):
         out = []
-        for k in (1, 2, 3, 4):
+        for k in (1, 2, 3, 4, 5, 6):
             out.append({'fn': 'IFS', 'k': k, 'err': -1})
             for ep in range(k):
-                out.append({'fn': 'IFS', 'k': k, 'err': ep})
+                if k <= 4 or ep == 0 or (ep == k - 1 and (k == 5 or tier != 'quick')):
+                    out.append({'fn': 'IFS', 'k': k, 'err': ep})
             for d in (False, True):
-                for kind in ('int', 'text'):
+                for kind in ('int', 'text', 'floatint', 'intfloat'):
+                    if k > 4 and kind != 'int':
+                        continue
                     out.append({'fn': 'SWITCH', 'k': k, 'default': d, 'kind': kind})
         out.append({'fn': 'SWITCH', 'k': 1, 'default': True, 'kind': 'err'})
         return out
@@ -172,8 +175,10 @@ class IfsSwitch(Harness):
             mk = lambda n: e.fresh_str(n, 1, alphabet=[(97, 100)])
         else:
             mk = lambda n: e.fresh_int(n)
-        inp['target'] = mk('t')
-        inp['cases'] = [mk('c%d' % i) for i in range(p['k'])]
+        # a float target against integer cases (and the reverse): equal numbers match whatever their type
+        fl = lambda n: SymFloat(iz=e.fresh_int(n).z)
+        inp['target'] = fl('t') if p['kind'] == 'floatint' else mk('t')
+        inp['cases'] = [(fl if p['kind'] == 'intfloat' else mk)('c%d' % i) for i in range(p['k'])]
         inp['vals'] = [e.fresh_int('r%d' % i) for i in range(p['k'])]
         inp['default'] = e.fresh_int('dflt') if p['default'] else None
         return inp
@@ -187,9 +192,9 @@ class IfsSwitch(Harness):
             for i in range(k):
                 tags = ERR8 if i == p['err'] else ['bool', 'int', 'blank']
                 tag, c = pick_tagged(env, e, inp, 'c%d' % i, tags, 'c%d' % i)
-                vals['vc%s' % 'abcd'[i]] = c
-                vals['vr%s' % 'abcd'[i]] = inp['vals'][i]
-                args += ['vc%s' % 'abcd'[i], 'vr%s' % 'abcd'[i]]
+                vals['vc%s' % 'abcdef'[i]] = c
+                vals['vr%s' % 'abcdef'[i]] = inp['vals'][i]
+                args += ['vc%s' % 'abcdef'[i], 'vr%s' % 'abcdef'[i]]
             return self.parse_with(env, 'IFS(%s)' % ','.join(args), vals)
         vals = {'vt': inp['target']}
         if p['kind'] == 'err':
@@ -197,9 +202,9 @@ class IfsSwitch(Harness):
             vals['vt'] = t
         args = ['vt']
         for i in range(k):
-            vals['vc%s' % 'abcd'[i]] = inp['cases'][i]
-            vals['vr%s' % 'abcd'[i]] = inp['vals'][i]
-            args += ['vc%s' % 'abcd'[i], 'vr%s' % 'abcd'[i]]
+            vals['vc%s' % 'abcdef'[i]] = inp['cases'][i]
+            vals['vr%s' % 'abcdef'[i]] = inp['vals'][i]
+            args += ['vc%s' % 'abcdef'[i], 'vr%s' % 'abcdef'[i]]
         if p['default']:
             vals['vd'] = inp['default']
             args.append('vd')
